@@ -141,11 +141,18 @@ func NewWorld(r *Rng, o WorldOpts) *GenWorld {
 	k := r.Intn(o.MaxFiles + 1)
 	names := []string{"main.tsh"}
 	dirs := []string{"", "", "lib/", "pkg/util/", "a b/"}
+	long := func(n int) string { return strings.Repeat("long_file_name_", n/15+1)[:n] }
 	for i := 1; i <= k; i++ {
-		names = append(names, fmt.Sprintf("%sh%d.tsh", r.Pick(dirs[:3+r.Intn(3)]), i))
+		base := fmt.Sprintf("h%d", i)
+		if r.Chance(8) {
+			// file and directory names of unusual length (a component may have up to 255 bytes)
+			base += "_" + long(Pick(r, []int{40, 64, 100, 180, 240}))
+		}
+		names = append(names, fmt.Sprintf("%s%s.tsh", r.Pick(dirs[:3+r.Intn(3)]), base))
 	}
-	if r.Chance(15) {
-		names[0] = r.Pick([]string{"app/main.tsh", "prog.tsh", "my prog.tsh", "a.b.tsh", "noext"})
+	if r.Chance(18) {
+		names[0] = r.Pick([]string{"app/main.tsh", "prog.tsh", "my prog.tsh", "a.b.tsh", "noext",
+			long(70) + ".tsh", long(251) + ".tsh", "d/" + long(120) + "/m.tsh", "a/b/c/d/e/f/g/h/i/j/k/l/m/n/o/p/main.tsh"})
 	}
 	w.Main = names[0]
 	w.Pub, w.Edges, w.StdOf = map[string][]FuncSig{}, map[string][]string{}, map[string][]string{}
